@@ -22,6 +22,9 @@ var c07Templates = []struct{ name, src string }{
 	{"loop-in-child", sim.Prelude + "g := func() { x := 0; for { x++ } }\nf := func() { y := [1, 2, 3]; return call(g) }\nlog(\"start\")\nreturn call(f)\n"},
 	{"loop-with-closures", sim.Prelude + "fs := []\nfor i := 0; i < 2000000; i++ {\n\tfs = [func() { return i }]\n\ttry { if i % 7 == 0 { throw i } } catch e { fs = [e] } finally { fs = append(fs, i) }\n}\nreturn fs\n"},
 	{"panic-in-finally-in-child", sim.Prelude + "f := func() {\n\ttry {\n\t\treturn 1\n\t} finally {\n\t\top(0)\n\t}\n}\nlog(\"start\")\nreturn call(f)\n"},
+	{"loop-under-try-frames", sim.Prelude + "var f\nf = func(n) {\n\ttry {\n\t\tif n > 0 { return f(n - 1) + 1 }\n\t\tx := 0\n\t\tfor { x++ }\n\t} catch e {\n\t\tlog(\"caught\", n)\n\t\treturn -1\n\t} finally {\n\t\tlog(\"fin\", n)\n\t}\n}\ntry {\n\treturn f(6)\n} catch e2 {\n\treturn -2\n}\n"},
+	{"host-panic-under-try-frames", sim.Prelude + "var f\nf = func(n) {\n\ttry {\n\t\tif n > 0 { return f(n - 1) + 1 }\n\t\treturn op(0)\n\t} finally {\n\t\tn = 0\n\t}\n}\ntry {\n\treturn [1, 2, 3, f(5)]\n} finally {\n\tlog(\"main-finally\")\n}\n"},
+	{"value-stack-overflow-in-try", sim.Prelude + "var f\nf = func(n, x, y, z) { return 1 + f(n + 1, x, y, z) }\ntry {\n\tlog(\"start\")\n\treturn f(0, 1, 2, 3)\n} catch e {\n\treturn \"caught\"\n}\n"},
 	{"modules-then-error", sim.Prelude + "a := import(\"modA\")\nb := import(\"modB\")\nh := import(\"host\")\nh.arr[0] = 77\na.inc()\nb.twice()\nlog(a.get(), h.arr)\nreturn b.boom(\"late\")\n"},
 }
 
@@ -40,6 +43,13 @@ func c07Run(rc *sim.RunCtx) {
 	// observation script
 	og := newGen(t, genConfig{Modules: true, Hosts: true, Consts: t.Bool(1, 2), MaxStmts: 10})
 	obsSrc, obsMods := og.program()
+	if t.Bool(1, 2) {
+		// end the observation with an error thrown at a drawn call depth and never caught: a handler or frame left
+		// behind by an earlier run at that depth would intercept it
+		d := 1 + t.Draw(8)
+		i := strings.LastIndex(obsSrc, "return [")
+		obsSrc = obsSrc[:i] + "zobs := " + obsSrc[i+len("return "):] + "var zthrow\nzthrow = func(n) {\n\tif n == 0 { throw \"too big\" }\n\treturn zthrow(n - 1) + 1\n}\nlog(zobs)\nreturn zthrow(" + fmt.Sprint(d) + ")\n"
+	}
 	allMods := append(append([]srcModule{}, fixedModules...), obsMods...)
 
 	// prior runs
@@ -52,11 +62,11 @@ func c07Run(rc *sim.RunCtx) {
 		case k < len(c07Templates):
 			p.kind = c07Templates[k].name
 			p.src = c07Templates[k].src
-			if p.kind == "loop-in-child" || p.kind == "loop-with-closures" {
+			if p.kind == "loop-in-child" || p.kind == "loop-with-closures" || p.kind == "loop-under-try-frames" {
 				p.abortAt = int64(20 + t.Draw(3000))
 			}
 			p.spec = sim.DrawWorldSpec(t, "p", 1, 1, 1, allFaults, 3, 8)
-			if p.kind == "panic-in-finally-in-child" {
+			if p.kind == "panic-in-finally-in-child" || p.kind == "host-panic-under-try-frames" {
 				p.spec.Faults = []sim.FaultAt{{ID: 0, Occ: 0, Kind: allFaults[t.Draw(len(allFaults))]}}
 			}
 		default:
@@ -96,9 +106,9 @@ func c07Run(rc *sim.RunCtx) {
 		rc.Logf("compile obs: %v", err)
 		return
 	}
-	recover := t.Bool(3, 4)
+	recoverOn := t.Bool(3, 4)
 	obsFaults := allFaults
-	if !recover {
+	if !recoverOn {
 		// without recovery a host panic is supposed to reach the caller: only errors then
 		obsFaults = allFaults[:2]
 	}
@@ -136,8 +146,8 @@ func c07Run(rc *sim.RunCtx) {
 	// reference: brand-new VM, fresh children only
 	pool := &sim.SimPool{T: t, Always: 1}
 	restorePool := pool.Install()
-	fresh1 := runObs(ugo.NewVM(obsBC).SetRecover(recover))
-	fresh2 := runObs(ugo.NewVM(obsBC).SetRecover(recover))
+	fresh1 := runObs(ugo.NewVM(obsBC).SetRecover(recoverOn))
+	fresh2 := runObs(ugo.NewVM(obsBC).SetRecover(recoverOn))
 	restorePool()
 	if !fresh1.out.Equal(fresh2.out) {
 		rc.Discard = "workload-not-self-deterministic"
@@ -168,11 +178,24 @@ func c07Run(rc *sim.RunCtx) {
 				vm.Clear()
 			}
 		}
-		vm.SetRecover(p.kind != "generated" || t.Bool(3, 4) || true)
+		// a host panic that escapes Run (recovery off) leaves the frames as they were
+		escape := p.kind == "host-panic-under-try-frames" && t.Bool(1, 2)
+		vm.SetRecover(!escape)
 		w := sim.NewWorld(p.spec, nil)
 		sc := &sim.StepCounter{Cap: 300000, AbortAt: p.abortAt}
 		restore := sc.Install()
-		_, perr := vm.Run(w.Globals, ugo.Int(i))
+		var perr error
+		func() {
+			defer func() {
+				if r := recover(); r != nil {
+					if !escape {
+						panic(r)
+					}
+					perr = fmt.Errorf("panic: escaped from Run with recovery off: %v", r)
+				}
+			}()
+			_, perr = vm.Run(w.Globals, ugo.Int(i))
+		}()
 		restore()
 		rc.Steps += sc.Steps
 		end := "return"
@@ -231,11 +254,11 @@ func c07Run(rc *sim.RunCtx) {
 		restorePool2()
 		p1 := &sim.SimPool{T: t, Always: 1}
 		r := p1.Install()
-		fresh1 = runObs(ugo.NewVM(obsBC).SetRecover(recover))
+		fresh1 = runObs(ugo.NewVM(obsBC).SetRecover(recoverOn))
 		r()
 		restorePool2 = pool2.Install()
 	}
-	vm.SetRecover(recover)
+	vm.SetRecover(recoverOn)
 	used := runObs(vm)
 	if pool2.Recycled > 0 {
 		rc.Probe("child-vm-recycled-from-earlier-run")
@@ -248,7 +271,7 @@ func c07Run(rc *sim.RunCtx) {
 		}
 	}
 	decoded := func() map[string]any {
-		d := map[string]any{"prior_runs": kinds, "reset": resetName, "observation_script": obsSrc, "recover": recover}
+		d := map[string]any{"prior_runs": kinds, "reset": resetName, "observation_script": obsSrc, "recover": recoverOn}
 		var ps []string
 		for _, p := range priors {
 			ps = append(ps, fmt.Sprintf("// %s abortAt=%d faults=%v\n%s", p.kind, p.abortAt, p.spec.Faults, p.src))
